@@ -10,7 +10,7 @@ from vlib.gridmodel import GridModel, fr, overlap
 PID = 'C03'
 LEVEL = 'exploration'
 BUDGET_S = {'quick': 40, 'thorough': 600}
-FLOORS = {'quick': {'shared_object_rounds': 150, 'shared_object_answers_compared': 100000, 'point_in_tile': 20000, 'shared_edges': 20000, 'flip': 10000, 'affected_required': 20000,
+FLOORS = {'quick': {'affected_other_srs_rects': 120, 'affected_other_srs_points': 25000, 'level_order_checked': 100, 'shared_object_rounds': 150, 'shared_object_answers_compared': 100000, 'point_in_tile': 20000, 'shared_edges': 20000, 'flip': 10000, 'affected_required': 20000,
                     'affected_forbidden': 20000, 'affected_layout': 5000, 'level_choice': 20000,
                     'origin_support_true': 50, 'origin_support_false': 50, 'traffic_requests': 150,
                     'monitored_affected_calls': 150, 'monitored_tile_bbox_calls': 500, 'monitored_level_calls': 100},
@@ -119,6 +119,23 @@ def gen_grid_spec(rng):
             rs.add(r)
             r = r / rng.choice([2.0, 1.05, 1.1, 1.5, 3.0, 10.0, 1.2])
         spec['res'] = sorted(rs, reverse=True)
+        how = rng.random()
+        if how < 0.2 and len(spec['res']) > 2:
+            # the list as people write it: a resolution appended later, ascending, or in no order at all. The levels of a grid
+            # are the configured resolutions from coarse to fine whatever the order in the file
+            lst = list(spec['res'])
+            k = rng.randrange(len(lst))
+            lst.append(lst.pop(k))
+            spec['res'] = lst
+            spec['lclass'] = 'list_unsorted'
+        elif how < 0.3:
+            spec['res'] = sorted(rs)
+            spec['lclass'] = 'list_unsorted'
+        elif how < 0.35:
+            lst = list(spec['res'])
+            rng.shuffle(lst)
+            spec['res'] = lst
+            spec['lclass'] = 'list_unsorted'
     spec['floor_res'] = floor_res
     return spec
 
@@ -159,6 +176,13 @@ class Probe(object):
         self.spec = spec
         self.g = grid
         res = [grid.resolution(z) for z in range(grid.levels)]
+        if 'res' in spec:
+            want = sorted(spec['res'], reverse=True)
+            run.hit('level_order_checked')
+            if res != want:
+                run.violation({'clause': 'levels_not_the_configured_resolutions_coarse_to_fine', 'origin': grid.origin, 'lclass': spec['lclass']},
+                              dict(case, spec=spec), 'configured res %r: the grid has levels %r, expected %r' % (spec['res'][:12], res[:12], want[:12]))
+            res = want
         self.m = GridModel(grid.bbox, res, grid.tile_size, grid.origin)
         self.levels = [z for z in range(grid.levels) if res[z] >= spec['floor_res']]
         self.shape = (spec['srs'], spec['bclass'], tuple(spec['tile_size']), spec['lclass'], grid.origin)
@@ -347,6 +371,90 @@ class Probe(object):
                     self.bad('affected', 'get_affected_level_tiles(%r, %d) raised %r' % (rect, z, ex), obs='exception')
                     continue
                 self.judge_affected(kind, rect, z, abbox, cx, cy, tiles)
+
+    def clause_affected_other_srs(self, rng):
+        """get_affected_tiles for a rectangle given in ANOTHER SRS: every point of the rectangle lies in a tile of the
+        returned set. Oracle: points on the border and inside the rectangle, each transformed on its own with pyproj,
+        located by the exact model; points within a tenth of a pixel of a tile edge or of the grid bbox are not judged."""
+        import pyproj
+        from mapproxy.srs import SRS
+        from mapproxy.grid import NoTiles, GridError
+        g, m = self.g, self.m
+        gsrs = self.spec['srs']
+        cand = [c for c in ('EPSG:3857', 'EPSG:25832', 'EPSG:3035', 'EPSG:4326') if c != gsrs and not (c == 'EPSG:3857' and gsrs == 'EPSG:900913')]
+        # an area of interest where all of these are defined, in lon/lat; the grid must reach into it
+        to_ll = pyproj.Transformer.from_crs(gsrs, 'EPSG:4326', always_xy=True)
+        try:
+            glo, gla = to_ll.transform([float(m.bbox[0]), float(m.bbox[2])], [float(m.bbox[1]), float(m.bbox[3])])
+            lo_a, lo_b = max(min(glo), -8.0), min(max(glo), 28.0)
+            la_a, la_b = max(min(gla), 36.0), min(max(gla), 64.0)
+        except Exception:
+            lo_a, lo_b, la_a, la_b = 2.0, 14.0, 44.0, 56.0
+        if not (lo_b - lo_a > 0.2 and la_b - la_a > 0.2):
+            self.run.count('other_srs_grid_outside_the_common_area')
+            return
+        for _ in range(3):
+            rs = rng.choice(cand)
+            dlon, dlat = min(rng.uniform(0.5, 9.0), (lo_b - lo_a) * 0.9), min(rng.uniform(0.5, 6.0), (la_b - la_a) * 0.9)
+            lon0, lat0 = rng.uniform(lo_a, lo_b - dlon), rng.uniform(la_a, la_b - dlat)
+            fwd = pyproj.Transformer.from_crs('EPSG:4326', rs, always_xy=True)
+            xs, ys = fwd.transform([lon0, lon0 + dlon, lon0, lon0 + dlon], [lat0, lat0, lat0 + dlat, lat0 + dlat])
+            rect = (min(xs), min(ys), max(xs), max(ys))
+            togrid = pyproj.Transformer.from_crs(rs, gsrs, always_xy=True)
+            cx_, cy_ = togrid.transform((rect[0] + rect[2]) / 2, (rect[1] + rect[3]) / 2)
+            if not (float(m.bbox[0]) < cx_ < float(m.bbox[2]) and float(m.bbox[1]) < cy_ < float(m.bbox[3])):
+                self.run.count('other_srs_rect_outside_grid')
+                continue
+            size = (rng.randint(200, 800), rng.randint(200, 800))
+            try:
+                abbox, (nx_, ny_), it = g.get_affected_tiles(rect, size, req_srs=SRS(rs))
+                tiles = set(t for t in it if t is not None)
+            except (NoTiles, GridError):
+                self.run.count('other_srs_no_tiles')
+                continue
+            except Exception as ex:
+                self.bad('affected_other_srs', 'get_affected_tiles(%r, %r, req_srs=%s) raised %r' % (rect, size, rs, ex), obs='exception')
+                continue
+            if not tiles:
+                continue
+            z = next(iter(tiles))[2]
+            if len(tiles) > 20000:
+                continue
+            self.run.hit('affected_other_srs_rects')
+            self.run.judge((self.shape, 'affected_other_srs', rs), nontrivial=True)
+            n = 40
+            pts = []
+            for i in range(n + 1):
+                t_ = i / n
+                pts += [(rect[0] + t_ * (rect[2] - rect[0]), rect[1]), (rect[0] + t_ * (rect[2] - rect[0]), rect[3]),
+                        (rect[0], rect[1] + t_ * (rect[3] - rect[1])), (rect[2], rect[1] + t_ * (rect[3] - rect[1]))]
+            for _k in range(60):
+                pts.append((rng.uniform(rect[0], rect[2]), rng.uniform(rect[1], rect[3])))
+            gx, gy = togrid.transform([p_[0] for p_ in pts], [p_[1] for p_ in pts])
+            res = float(g.resolution(z))
+            sx, sy = res * g.tile_size[0], res * g.tile_size[1]
+            missing = []
+            for (px_, py_), x_, y_ in zip(pts, gx, gy):
+                if not (math.isfinite(x_) and math.isfinite(y_)):
+                    continue
+                if not (float(m.bbox[0]) + res < x_ < float(m.bbox[2]) - res and float(m.bbox[1]) + res < y_ < float(m.bbox[3]) - res):
+                    continue
+                fx = (x_ - float(m.bbox[0])) / sx
+                fy = ((float(m.bbox[3]) - y_) if m.ul else (y_ - float(m.bbox[1]))) / sy
+                # not within a tenth of a pixel of a tile edge (the documented inset) plus the accuracy of the projection
+                if min(fx % 1, 1 - fx % 1) * g.tile_size[0] < 0.6 or min(fy % 1, 1 - fy % 1) * g.tile_size[1] < 0.6:
+                    continue
+                t = (int(math.floor(fx)), int(math.floor(fy)), z)
+                nxg, nyg = g.grid_sizes[z]
+                if not (0 <= t[0] < nxg and 0 <= t[1] < nyg):
+                    continue
+                self.run.hit('affected_other_srs_points')
+                if t not in tiles:
+                    missing.append((px_, py_, t))
+            if missing:
+                self.bad('affected_other_srs', 'get_affected_tiles(%r, %r, req_srs=%s) on level %d returned %d tiles; %d of the sampled points of '
+                         'the rectangle lie in tiles that are not among them, e.g. point %r -> tile %r' % (
+                             rect, size, rs, z, len(tiles), len(missing), missing[0][:2], missing[0][2]), sub='missing_tile')
 
     def judge_affected(self, kind, rect, z, abbox, cx, cy, tiles):
         g, m = self.g, self.m
@@ -752,6 +860,8 @@ def run_case(run, case):
     p.clause_points(prng)
     p.clause_flip(prng)
     p.clause_affected(prng)
+    if spec['srs'] != 'EPSG:4326' and case['i'] % 2 == 0:
+        p.clause_affected_other_srs(run.rng('othersrs', case['i']))
     p.clause_level(prng)
     if case['i'] % 4 == 0 or run.replaying:
         shared_object_phase(run, case, spec, grid, p.levels, run.rng('threads', case['i']))
